@@ -39,6 +39,7 @@ type Sched struct {
 	mu     sync.Mutex
 	actors map[string]*actor
 	dead   bool
+	deadCh chan struct{}
 	// BlockedAfter is how long Step waits for the actor to reach its next gate before it is considered
 	// to be blocked inside the code under test (e.g. on a mutex held by another actor).
 	BlockedAfter time.Duration
@@ -47,7 +48,7 @@ type Sched struct {
 }
 
 func New() *Sched {
-	return &Sched{actors: map[string]*actor{}, BlockedAfter: 40 * time.Millisecond, GiveUp: 20 * time.Second}
+	return &Sched{deadCh: make(chan struct{}), actors: map[string]*actor{}, BlockedAfter: 40 * time.Millisecond, GiveUp: 20 * time.Second}
 }
 
 func (s *Sched) get(name string) *actor {
@@ -64,18 +65,11 @@ func (s *Sched) get(name string) *actor {
 // Kill releases all actors with directive "dead" now and in the future (crash of the incarnation).
 func (s *Sched) Kill() {
 	s.mu.Lock()
-	s.dead = true
-	as := make([]*actor, 0, len(s.actors))
-	for _, a := range s.actors {
-		as = append(as, a)
+	if !s.dead {
+		s.dead = true
+		close(s.deadCh)
 	}
 	s.mu.Unlock()
-	for _, a := range as {
-		select {
-		case a.release <- "dead":
-		default:
-		}
-	}
 }
 
 // At blocks the calling actor at gate `point` until the driver releases it; returns the directive.
@@ -94,9 +88,16 @@ func (s *Sched) At(name, point string) string {
 	s.mu.Lock()
 	a.at = point
 	s.mu.Unlock()
-	a.arrived <- struct{}{}
-	d := <-a.release
-	return d
+	select {
+	case a.arrived <- struct{}{}:
+	default:
+	}
+	select {
+	case d := <-a.release:
+		return d
+	case <-s.deadCh:
+		return "dead"
+	}
 }
 
 // Go starts fn as actor `name`; the actor first blocks at gate "start".
@@ -111,7 +112,10 @@ func (s *Sched) Go(name string, fn func(ctx context.Context)) {
 		s.mu.Lock()
 		a.at = "done"
 		s.mu.Unlock()
-		a.arrived <- struct{}{}
+		select {
+		case a.arrived <- struct{}{}:
+		default:
+		}
 	}()
 }
 
@@ -166,7 +170,13 @@ func (s *Sched) Step(name, expect, directive string) (string, error) {
 		}
 		break
 	}
-	a.release <- directive
+	select {
+	case a.release <- directive:
+	case <-s.deadCh:
+		return "", fmt.Errorf("incarnation is dead")
+	case <-time.After(s.GiveUp):
+		return "", fmt.Errorf("actor %s does not take its release", name)
+	}
 	now, _ := s.Await(name, s.BlockedAfter)
 	return now, nil
 }
